@@ -8,7 +8,7 @@ from harness.dwarfkit import unit_header, abbrev_table
 
 PROPERTY = 'C11'
 ASSUMPTIONS = [
-    'zlib and CRC-32 are C libraries behind an FFI: environment, modelled by contract (inflate(registered payload) = plain bytes; crc32 of the linked file = an arbitrary 32-bit value owned by the solver)',
+    'zlib and CRC-32 are C libraries behind an FFI: environment, modelled by contract (streaming inflate of a registered payload - fed in one piece or in chunks - yields its plain bytes with a linear output profile; max_length stops consumption, the unconsumed input is returned in unconsumed_tail and must be fed again, flush() processes it; any other input is a corrupt stream; crc32 of the linked file = an arbitrary 32-bit value owned by the solver)',
     'DWARFInfo sees a section only through (stream, size, address, name): identical stream content and size in every container imply identical units, entries and tables (the parsers themselves are C04-C07)',
     'linked files are handed over by a harness stream loader (path resolution on disk is outside)',
 ]
@@ -26,7 +26,7 @@ def _debug_payload(ctx, little):
     return h + body, ab, v, name
 
 
-def _image(ctx, cls, little, container, info, abbrev, extra=None, declared=None, magic=None, comp_name='c', mips=False):
+def _image(ctx, cls, little, container, info, abbrev, extra=None, declared=None, magic=None, comp_name='c', mips=False, big=None):
     """image with .debug_info in the given container (plain | gabi | zdebug); other sections plain.
     mips: a MIPS object, whose debug sections have the type SHT_MIPS_DWARF instead of SHT_PROGBITS"""
     img = Image(cls, little, e_type=1, machine=8 if mips else 62)
@@ -67,6 +67,23 @@ def _image(ctx, cls, little, container, info, abbrev, extra=None, declared=None,
     for name, data in (extra or []):
         o = img.blob(data)
         img.section(name, sh_type=1, sh_offset=o, sh_size=len(data))
+    if big is not None:
+        # a large, highly compressible string section in the same container (its compressed form is longer than one read chunk
+        # of the inflating loop and inflates at more than 16:1)
+        bplain, bcomp = big
+        if container == 'plain':
+            o = img.blob(bplain)
+            img.section('.debug_str', sh_type=1, sh_offset=o, sh_size=len(bplain))
+        elif container == 'gabi':
+            chdr = L.encode('CHDR', cls, little, dict(ch_type=1, ch_size=len(bplain), ch_addralign=1))
+            o = img.blob(chdr + bcomp)
+            img.section('.debug_str', sh_type=1, sh_flags=0x800, sh_offset=o, sh_size=len(chdr) + len(bcomp))
+            pairs.append((bcomp, bplain))
+        else:
+            hdr = [0x5a, 0x4c, 0x49, 0x42] + enc.enc_int(len(bplain), 8, False)
+            o = img.blob(hdr + bcomp)
+            img.section('.zdebug_str', sh_type=1, sh_offset=o, sh_size=len(hdr) + len(bcomp))
+            pairs.append((bcomp, bplain))
     img.add_shstrtab()
     return img.build(), pairs
 
@@ -84,13 +101,22 @@ def h_containers(ctx):
     cls, little, container = cfg['elfclass'], cfg['little'], cfg['container']
     EF = ctx.lib('elf.elffile')
     info, ab, v, name = _debug_payload(ctx, little)
-    data, pairs = _image(ctx, cls, little, container, info, ab, mips=cfg.get('mips', False))
+    big = None
+    if cfg.get('big'):
+        P, C = cfg['big']
+        bplain = [0x41 + (i % 26) for i in range(P - 3)] + ctx.bytes('bigplain', 2) + [0]
+        bcomp = [0x78, 0x9c] + [(i * 7 + 3) & 0xff for i in range(C - 6)] + ctx.bytes('bigcomp', 4)
+        big = (bplain, bcomp)
+    data, pairs = _image(ctx, cls, little, container, info, ab, mips=cfg.get('mips', False), big=big)
     ctx.use_zlib_model(pairs)
     elf = EF.ELFFile(ctx.stream(data))
     ctx.check('containers/%s/has_dwarf_info' % container, bool(elf.has_dwarf_info()))
     di = elf.get_dwarf_info()
     got = _view(di)
     ctx.outcome('ok')
+    if big is not None:
+        ctx.check_eq('containers/%s/big/size' % container, di.debug_str_sec.size, len(big[0]))
+        ctx.check_eq('containers/%s/big/content' % container, list(di.debug_str_sec.stream.getvalue()), list(big[0]))
     want = (len(info), list(info), len(info) - 4, 'DW_TAG_compile_unit', v, ctx.mkbytes(name), 2 + len(name) + 1)
     ctx.check_eq('containers/%s/size' % container, got[0], want[0])
     ctx.check_eq('containers/%s/stream-content' % container, got[1], want[1])
@@ -313,7 +339,8 @@ ENVS = [(64, True), (32, False), (64, False), (32, True)]
 
 HARNESSES = [
     H('h11_1_containers', h_containers, lambda tier: [dict(elfclass=c, little=l, container=k) for c, l in (ENVS if tier == 'thorough' else ENVS[:2]) for k in ('plain', 'gabi', 'zdebug')] +
-                   [dict(elfclass=c, little=l, container=k, mips=True) for c, l in ENVS[1:3] for k in ('plain', 'gabi', 'zdebug')],
+                   [dict(elfclass=c, little=l, container=k, mips=True) for c, l in ENVS[1:3] for k in ('plain', 'gabi', 'zdebug')] +
+                   [dict(elfclass=c, little=l, container=k, big=b) for c, l in ENVS[:2] for k in ('plain', 'gabi', 'zdebug') for b in ((100000, 4101), (70000, 9000))],
       expect=('ok',),
       desc='the same symbolic debug payload stored plainly, SHF_COMPRESSED (Elf32/64_Chdr) and as legacy .zdebug ("ZLIB" + 8-byte big-endian size): the stream handed to DWARFInfo has '
            'content P and size |P| in all three, and the unit / entry / attribute decoded from it are identical'),
